@@ -87,10 +87,17 @@ func c05(tier string, args []string) int {
 		if r.TimeUp() {
 			break
 		}
-		s, t, phases := explore05(r, nt.n, nt.t)
+		s, t, phases := explore05(r, nt.n, nt.t, 0)
 		totS += s
 		totT += t
-		per = append(per, fmt.Sprintf("n=%d t=%d: states=%d transitions=%d states_per_phase=%v", nt.n, nt.t, s, t, phases))
+		per = append(per, fmt.Sprintf("n=%d t=%d (view of participant 0): states=%d transitions=%d states_per_phase=%v", nt.n, nt.t, s, t, phases))
+		if nt.n == 3 || tier == "thorough" {
+			// the same search on the last participant's node
+			s, t, _ := explore05(r, nt.n, nt.t, nt.n-1)
+			totS += s
+			totT += t
+			per = append(per, fmt.Sprintf("n=%d t=%d (view of participant %d): states=%d transitions=%d", nt.n, nt.t, nt.n-1, s, t))
+		}
 	}
 	r.Set("states", totS)
 	r.Set("transitions", totT)
@@ -100,12 +107,12 @@ func c05(tier string, args []string) int {
 	return finish(r)
 }
 
-func explore05(r *kit.Run, n, t int) (states, transitions int, phases map[string]int) {
+func explore05(r *kit.Run, n, t, view int) (states, transitions int, phases map[string]int) {
 	workers := 16
 	labs := make([]*Lab, workers)
 	alph := make([][]Input, workers)
 	for i := range labs {
-		l, err := NewLab(n, t, 0)
+		l, err := NewLab(n, t, view)
 		if err != nil {
 			r.Infra("lab: %v", err)
 		}
